@@ -33,11 +33,17 @@ TRUSTED = [
     "SymPy == is an equivalence and a congruence for doit() (hypothesis eqb_doit; checked on every pair of pool expressions in every run)",
     "get_readable_hash and doit() are NOT modelled: they are universally quantified (Section variables keyf, doit); in the "
     "correspondence run they are tables measured on the real functions",
-    "bridge/hist_C16.py (history executor, fault injection by monkey-patching pickle.dump/os.replace/builtins.open in forked "
+    "coq/theories/Cache.v HashMode: 9-line model of _get_python_hash_seed (ASCII strings only; Python's str.isdigit also accepts "
+    "non-ASCII digits such as superscripts, for which int() raises - outside the model and outside legal PYTHONHASHSEED values)",
+    "bridge/callables_C16.py (attribute values of the pair family); bridge/hist_C16.py (history executor, fault injection by monkey-patching pickle.dump/os.replace/builtins.open in forked "
     "children, classification of cache files by the harness' own pickle.load)",
 ]
 
-RULE = ("scripted directory histories on real temp directories under PYTHONHASHSEED unset/0/other: witnesses of the three pinned "
+RULE = ("scripted directory histories on real temp directories under PYTHONHASHSEED unset/0/other/'random' (the last with a "
+        "reduced set), plus 18 values assigned at run time for the mode-selection helper (vs Gallina hash_mode); pairs of one "
+        "expression differing only in the state of a non-SymPy attribute of every kind (class, function, functools.partial, "
+        "callable dataclass, callable with default eq, callable without hash, closure, lambda, non-callable value objects) in "
+        "several call orders, same and later (forked) processes, compared with doit(); witnesses of the three pinned "
         "defects; call sequences over pairs differing only in phsp_factor / only in symbol assumptions / not at all; truncation "
         "of the cache file after every prefix length (quick: evenly subsampled above 400 bytes) followed by calls; pre-existing "
         "legacy / foreign-tuple / junk / empty / half / directory entries; a writer killed (os._exit) or interrupted (raise) "
@@ -88,6 +94,8 @@ def run(chk):
         "(there is no checksum: in-place corruption that still loads as such a tuple is not detectable)",
         "no entry '<hash>.pkl' is a non-file (a directory there makes os.replace raise: Example C16_blocked_entry_raises; "
         "the harness confirms this behaviour on the implementation and excludes those histories from the no-raise oracle)",
+        "expressions that cannot be pickled are part of every family: the model has picklable : expr -> bool as a free Section "
+        "variable (Robust: result returned, nothing written; Pinned: raises)",
         "the cache directory itself can be created and written; its creation (mkdir exist_ok, parents) is folded into the "
         "first step of a call in the model (idempotent) and exercised by the cold-start histories",
         "a cache file whose load raises a BaseException that is no Exception (a pickle that calls sys.exit) is out of scope",
@@ -135,12 +143,8 @@ def run(chk):
     notes.append("PYTHONHASHSEED values assigned at run time, real _get_python_hash_seed vs Gallina hash_mode: %d comparisons"
                  % env_checked)
     if unpicklable:
-        what = ("perform_cached_doit raises (PicklingError/AttributeError from pickle.dump, after doit() succeeded) for expressions "
-                "whose non-SymPy attribute cannot be pickled: kinds %s (e.g. EnergyDependentWidth(..., phsp_factor=<lambda or closure>))"
-                % sorted(unpicklable))
-        notes.append("CANDIDATE FINDING (not raised as a violation: not caused by the directory's contents): " + what)
-        if any(f.get("property") == "C16" and f.get("signature") == "unpicklable_expression_raises" for f in chk.findings):
-            chk.violation("unpicklable_expression_raises", what, {"case": {"kind": "attrpair", "pair": "lambda"}}, True)
+        notes.append("attribute kinds that cannot be pickled (hard-checked: the call returns doit(), writes no entry, leaves no "
+                     "*.tmp, signature unpicklable_expression_raises on an exception): %s" % sorted(unpicklable))
     chk.notes += notes
     chk.add_cases(n_calls, n_nontrivial, samples, RULE)
     chk.cov["traces_validated_against_impl"] = n_hist
